@@ -6,3 +6,6 @@ import BitcaskVerif.Props.C15
 #print axioms ConnLimit.c15_finish_any_cause
 #print axioms ConnLimit.c15_accept_failure_free
 #print axioms ConnLimit.c15_accept_after_failures
+#print axioms AcceptBackoff.c15_backoff_survives
+#print axioms AcceptBackoff.c15_backoff_gives_up
+#print axioms AcceptBackoff.c15_backoff_zero_min
